@@ -50,6 +50,9 @@ pub enum EnrAddr {
     None,
     /// Exactly this socket address in the matching (v4/v6) fields.
     Socket(SocketAddr),
+    /// The IP address field alone, without a UDP port (a record that names an address one
+    /// cannot send discovery packets to).
+    IpOnly(IpAddr),
 }
 
 pub fn build_enr(sk: &SigningKey, seq: u64, addr: EnrAddr, pad_to: Option<usize>) -> Enr {
@@ -62,6 +65,16 @@ pub fn build_enr2(sk: &SigningKey, seq: u64, a: EnrAddr, b: EnrAddr, pad_to: Opt
         let mut builder = Enr::builder();
         builder.seq(seq);
         for addr in [a, b] {
+            if let EnrAddr::IpOnly(ip) = addr {
+                match ip {
+                    IpAddr::V4(ip) => {
+                        builder.ip4(ip);
+                    }
+                    IpAddr::V6(ip) => {
+                        builder.ip6(ip);
+                    }
+                }
+            }
             if let EnrAddr::Socket(sa) = addr {
                 match sa.ip() {
                     IpAddr::V4(ip) => {
